@@ -1,5 +1,60 @@
-from .. import AnalysisBroken
+"""C06 - pc and its variance estimator are unbiased under multinomial sampling."""
+from ._pcspec import check_against_spec, is_vec, vec_with_param0
+
+CLAIMED = True
+LEVEL = "proof"
+TECHNIQUE = "rational-function normal form (power-sum atoms) of pc_n / pc / varpc_n compared with the unique unbiased estimators derived on paper; value provenance of the wrappers"
+TEXT = ("Two-step proof. Paper (DESIGN Appendix A.6): for fixed N the multinomial family is complete, so the unbiased estimator that is a function "
+        "of the counts is unique; the unbiased estimators of sum p^2, sum p q and Var(pc) are the rational functions U2, X, V* derived from the "
+        "Hoeffding variance and factorial moments. Machine, every run: the rational-function normal forms (Fraction-coefficient polynomials over "
+        "the power sums P1, P2, P3 of the count vector, which are algebraically independent) of pc_n, both paths of pc and varpc_n are identical "
+        "to U2, X, V*; stdpc_n is pow(varpc_n(n), 1/2); stdpc feeds stdpc_n with the multiplicity slot of numpy.unique of its argument; "
+        "stdpc_joint feeds stdpc with the row serialisation of the selected columns.")
+NOTE = ("Trusted: Appendix A.6 (completeness / uniqueness, Hoeffding variance), numpy.unique model (multiplicities sum to the array length), "
+        "exact arithmetic; behaviour for N < 4 is whatever the formula gives (division by zero).")
 
 
-def run(r):
-    raise AnalysisBroken("rule set for C06 not implemented yet (fail-closed stub)")
+def run(r, prefix="C06"):
+    rep = r.rep
+    rep.explanation = ("Normal forms of the estimators were computed from the current source and compared, as polynomial identities "
+                       "n1*d2 == n2*d1, with the unique unbiased estimators derived independently of the code.")
+    rep.trust("DESIGN Appendix A.6: completeness of the multinomial family => uniqueness of unbiased estimators; Hoeffding variance of the U-statistic with kernel 1[x=y]",
+              "numpy.unique(a, return_counts=True) -> (sorted distinct values, multiplicities; sum = a.shape[0])",
+              "numpy.intersect1d(u, v, return_indices=True) -> (common, positions in u, positions in v) for duplicate-free u, v",
+              "exact arithmetic (no floating point)")
+    rep.assume("N >= 2 for pc, N >= 4 for varpc_n; samples are independent draws")
+    check_against_spec(r, f"{prefix}-RF", "pc_n", "pc_n(n) == (P2 - P1) / (N (N - 1)), the unique unbiased estimator of sum p_i^2", vec=vec_with_param0)
+    check_against_spec(r, f"{prefix}-RF", "pc", "pc: one-sample path == U2 on the multiplicities with N = len(sample); two-sample path == sum_common c1 c2 / (N1 N2)", vec=is_vec)
+    check_against_spec(r, f"{prefix}-RF", "varpc_n", "varpc_n(n) == V*, the unique unbiased estimator of Var(pc)", vec=vec_with_param0)
+    check_against_spec(r, f"{prefix}-RF", "stdpc_n", "stdpc_n(n) == varpc_n(n) ** (1/2)", vec=vec_with_param0)
+    check_against_spec(r, f"{prefix}-PROV", "stdpc", "stdpc feeds stdpc_n with the multiplicities of its argument", vec=is_vec)
+    check_against_spec(r, f"{prefix}-PROV", "stdpc_joint", "stdpc_joint feeds stdpc with the row serialisation of the selected columns (non-empty separator)", vec=is_vec)
+    rep.floor(f"{prefix}-RF", 4)
+    rep.floor(f"{prefix}-PROV", 2)
+
+
+from ..selftest import V  # noqa: E402
+
+S = "pyrepseq/stats.py"
+VARIANTS = [
+    V("beta-coefficient", S, "beta = 2 * (2 * N - 3) / ((N - 2) * (N - 3))", "beta = 2 * (2 * N - 2) / ((N - 2) * (N - 3))", rule="C06-RF"),
+    V("p3hat-denominator", S, "(N * (N - 1) * (N - 2))", "(N * (N - 1) * (N - 1))", rule="C06-RF"),
+    V("var-first-coefficient", S, "4 * (N - 2) / (N * (N - 1)) * (1 + beta) * p3_hat", "4 * (N - 1) / (N * (N - 1)) * (1 + beta) * p3_hat", rule="C06-RF"),
+    V("var-sign", S, "- beta * p2_hat**2", "+ beta * p2_hat**2", rule="C06-RF"),
+    V("stdpc_n-cube-root", S, "return varpc_n(n)** 0.5", "return varpc_n(n)** (1/3)", rule="C06-RF"),
+    V("pc_n-biased-denominator", S, "return np.sum(n * (n - 1)) / (N * (N - 1))", "return np.sum(n * (n - 1)) / (N * N)", rule="C06-RF"),
+    V("pc_n-N-is-len", S, "    N = np.sum(n)\n    return np.sum(n * (n - 1)) / (N * (N - 1))", "    N = len(n)\n    return np.sum(n * (n - 1)) / (N * (N - 1))", rule="C06-RF"),
+    V("pc-onesample-biased", S, "return np.sum(counts * (counts - 1)) / (N * (N - 1))", "return np.sum(counts * counts) / (N * N)", rule="C06-RF"),
+    V("pc-swapped-indices", S, "np.sum(c[ind1_int] * c2[ind2_int])", "np.sum(c[ind2_int] * c2[ind1_int])", rule="C06-RF"),
+    V("pc-twosample-denominator", S, "/ (len(array) * len(array2))", "/ (len(array) * len(array))", rule="C06-RF"),
+    V("stdpc-values-slot", S, "    _, n = np.unique(array, return_counts=True)\n    return stdpc_n(n)", "    n, _ = np.unique(array, return_counts=True)\n    return stdpc_n(n)", rule="C06-PROV"),
+    V("stdpc_joint-empty-separator", S, "    return stdpc(df[on].apply(lambda x: gap_token.join(x.astype(str)), axis=1))", "    return stdpc(df[on].apply(lambda x: ''.join(x.astype(str)), axis=1))", rule="C06-PROV"),
+    V("silent-expand-one-plus-beta", S, "4 * (N - 2) / (N * (N - 1)) * (1 + beta) * p3_hat", "(4 * (N - 2) / (N * (N - 1)) * p3_hat + 4 * (N - 2) / (N * (N - 1)) * beta * p3_hat)", expect="silent"),
+    V("silent-temporaries", S, "    p2_hat = np.sum(n * (n - 1)) / (N * (N - 1))\n    p3_hat", "    pairs = N * (N - 1)\n    p2_hat = (np.sum(n * n) - N) / pairs\n    p3_hat", expect="silent"),
+    V("silent-sqrt", S, "return varpc_n(n)** 0.5", "return np.sqrt(varpc_n(n))", expect="silent"),
+    V("silent-N-len-array", S, "        N = array.shape[0]\n", "        N = len(array)\n", expect="silent"),
+    V("silent-N-sum-counts", S, "        N = array.shape[0]\n        _, counts = np.unique(array, return_counts=True)\n", "        _, counts = np.unique(array, return_counts=True)\n        N = np.sum(counts)\n", expect="silent"),
+    V("silent-counts-squared", S, "return np.sum(counts * (counts - 1)) / (N * (N - 1))", "return (np.sum(counts**2) - np.sum(counts)) / (N**2 - N)", expect="silent"),
+    V("silent-other-separator", S, 'lambda row: ".".join(str(val) for val in row)', 'lambda row: "|".join(str(val) for val in row)', expect="silent"),
+    V("silent-no-assume-unique", S, "v, v2, assume_unique=True, return_indices=True", "v, v2, return_indices=True", expect="silent"),
+]
